@@ -181,7 +181,7 @@ REG.contract(
 
 ASSUMES = ["A-PY", "A-INST", "A-DJ"]
 NOT_COVERED = [
-    "get_component_files / get_component_dirs / autodiscover loops over settings and apps are not under contract (the `..` filter, each-once across overlapping directories)",
+    "get_component_files / get_component_dirs / autodiscover loops over settings and apps are not under contract (the `..` filter, each-once across overlapping directories); they are covered only by the BOUNDED stand-in bounded#get_component_files_returns_exactly_the_public_modules (587 trees, sampled: every 7th subset pattern)",
     "pathlib / glob are assumed (opaque path values; glob.iglob omits hidden parts and returns paths below the directory); the import system is trusted",
     "os.name == 'nt' branch (PureWindowsPath) is not analysed",
 ]
@@ -240,3 +240,12 @@ def _replay_module_path(model, ob):
             return {"confirmed": True, "function": "_filepath_to_python_module", "inputs": {"file_path": f, "root_fs_path": root, "root_module_path": pkg},
                     "expected": want, "observed": got}
     return {"confirmed": False}
+
+
+def _bounded_discovery(tier, repo):
+    from harness.bounded_discovery import run
+    return run(repo)
+
+
+REG.bounded_check("bounded#get_component_files_returns_exactly_the_public_modules", P, _bounded_discovery,
+                  note="get_component_dirs / get_component_files / the app-dirs loop are not under contract: a real project tree (a COMPONENTS.dirs directory and an installed app's components directory) is populated with 587 subset patterns of 12 entries (nested packages, _ and . prefixed files and directories at every level, __init__.py, non-.py files, a directory name with a dot) and get_component_files('.py') is compared with the property")
